@@ -48,7 +48,7 @@ BOUNDED = {
          'dihedral group of order 260): core_table has as many rows as the group has elements and agrees on 5-11 long words, stabilizer generators fix base rows 0 and 257'),
  'C18': ('exact rank / determinant / solve of the machine-integer backend (matrix algebra over generic Entry: outside the contracts)',
          '600 random integer matrices of every shape up to 4x5 (rank against fraction-free elimination on i128) and 400 square ones up to 4x4 (determinant against Bareiss on i128, '
-         'solve returns true solutions), entries in -3..=3, fixed seed; ALL shapes 1..4 x 1..4 over Z/61 (40 matrices each, many zeros and repeated rows): rank against own elimination mod p, solve sound and complete (b = A x0 must get a solution), null_space_matrix has columns - rank independent columns annihilated by the matrix; the same shapes over Q (VecMatrix<BigRational>, 25 integer matrices each: rank against fraction-free elimination, solve sound and complete, null space annihilated); the p-adic modular solver on 300 random systems (n <= 3, entries up to 10^9, large and tiny right-hand sides) and 960 near-orthogonal systems of orders 2 and 4 at 60 scales from 3 to 10^9 (solutions near the Hadamard bound): A x = b exactly; residues: 217 boundary and random integers for P in {2, 3, 61, 3037000493}'),
+         'solve returns true solutions), entries in -3..=3, fixed seed; ALL shapes 1..4 x 1..4 over Z/61 (40 matrices each, many zeros and repeated rows): rank against own elimination mod p, solve sound and complete (b = A x0 must get a solution), null_space_matrix has columns - rank independent columns annihilated by the matrix; the same shapes over Q (VecMatrix<BigRational>, 25 integer matrices each: rank against fraction-free elimination, solve sound and complete, null space annihilated); the p-adic modular solver on 300 random systems (n <= 3, entries up to 10^9, large and tiny right-hand sides) and 960 near-orthogonal systems of orders 2 and 4 at 60 scales from 3 to 10^9 (solutions near the Hadamard bound): A x = b exactly; residues: 217 boundary and random integers for P in {2, 3, 61, 3037000493}, and 22 big integers (up to 10^40 * P, both signs) through From<BigInt>'),
  'C20': ('(every clause is also decided deductively, at T = usize)', '1500 random mixed histories (unite / find / classes on random sub-multisets / clone) and 30000 union-heavy histories over <= 9 elements, '
          'both partitions, compared with a naive model; clones compared with the model at cloning time'),
 }
